@@ -233,7 +233,7 @@ def summarize(ctx, results):
         "extra": {"jobs": len(results), "nonzero_exits": [r["cmd"] for r in results if r["rc"] != 0][:5],
                   "fields_compared": ctx.spec.get("fields", []), "driver": [r["driver_tail"][:160] for r in results[:3]],
                   "model_recomputed_lines": evaluations,
-                  "delegation_clause": "comparison/hash/format/iterate/poll/AsRef/Borrow results are compared with std::boxed::Box on the sampled programs: sampled, not proved"},
+                  "delegation_clause": "source form regenerated by tools/extract_box.py (obligation delegating_impls_forward); comparison/hash/format/iterate/poll/AsRef/Borrow results are compared with std::boxed::Box on the sampled programs"},
     }
 
 
